@@ -248,16 +248,24 @@ func main() {
 			a, b  uint32
 		}
 		results := []conc{}
-		var resMu sync.Mutex
 		rng := rand.New(rand.NewSource(e.Seed))
 		mainG := gid()
 		for round := 0; round < e.Rounds; round++ {
 			mu.Lock()
 			phase = "r" + strconv.Itoa(round)
 			mu.Unlock()
+			// Even rounds (the first one included) run WITHOUT the access hooks and without any lock of the driver between the
+			// jobs: the hook's mutex would order the goroutines (happens-before edges) and hide races from the detector.
+			// Odd rounds run with the hooks and give the ownership observations.
+			if round%2 == 0 {
+				verifhook.Access = nil
+			} else {
+				verifhook.Access = hook
+			}
 			perm := rng.Perm(len(e.Jobs))
 			start := make(chan struct{})
 			var wg sync.WaitGroup
+			local := make([][]conc, e.K)
 			for g := 0; g < e.K; g++ {
 				mine := []int{}
 				if round == 0 {
@@ -283,14 +291,15 @@ func main() {
 					me := gid()
 					for _, ji := range mine {
 						a, b := run(e.Jobs[ji])
-						resMu.Lock()
-						results = append(results, conc{ji, me, a, b})
-						resMu.Unlock()
+						local[gi] = append(local[gi], conc{ji, me, a, b})
 					}
 				}(g, mine, spin)
 			}
 			close(start)
 			wg.Wait()
+			for _, l := range local {
+				results = append(results, l...)
+			}
 		}
 		mu.Lock()
 		phase = "seq"
